@@ -15,6 +15,7 @@ use std::sync::atomic::{AtomicBool, Ordering};
 use xs::{h64, Step, System, Violation};
 
 pub const T_INF: u64 = 1 << 40;
+pub const PAUSE_DEPTH: u32 = 9;
 
 #[derive(Clone, Copy, PartialEq, Eq, Hash, Debug, Default)]
 pub struct Obs {
@@ -158,7 +159,7 @@ impl PollSys {
             timeout,
             timeout_us: timeout.saturating_mul(1000),
             cap: cap_for(timeout, cap_mult),
-            pauses: vec![(1 << 16) - 2, 1 << 16, 1 << 20, (1 << 32) - 2, 1 << 32],
+            pauses: if WRAP16.load(Ordering::Relaxed) { vec![(1 << 16) - 2, 1 << 16, 1 << 20, (1 << 32) - 2, 1 << 32] } else { vec![1 << 20, (1 << 32) - 2, 1 << 32] },
             storms: Vec::new(),
             alphabet,
             probes,
@@ -529,8 +530,13 @@ impl System for PollSys {
         }
         out.push(PoAct::Poll);
         out.push(PoAct::Tick);
-        for i in 0..self.pauses.len() {
-            out.push(PoAct::Pause(i as u8));
+        // long pauses only near the initial state: every pending phase is reachable within a few
+        // steps, and offering five pauses (each with its own wrap-adjacent age classes) from every
+        // state triples the state space for no new control structure
+        if depth <= PAUSE_DEPTH {
+            for i in 0..self.pauses.len() {
+                out.push(PoAct::Pause(i as u8));
+            }
         }
         if depth <= STORM_DEPTH + 1 {
             for i in 0..self.storms.len() {
@@ -735,10 +741,10 @@ impl PollSys {
     fn key_inner(&self, s: &PoState) -> (u128, Obs) {
         let mut o = s.ob;
         if let Some((b, since)) = o.owed {
-            o.owed = Some((b, (s.now - since).min(self.cap)));
+            o.owed = Some((b, canon_age(s.now - since, self.cap)));
         }
         if let Some(since) = o.lsbp {
-            o.lsbp = Some((s.now - since).min(self.cap));
+            o.lsbp = Some(canon_age(s.now - since, self.cap));
         }
         (scanner_fp(&s.sc, s.now, self.cap), o)
     }
@@ -774,10 +780,10 @@ fn run_observer(chk: &xs::Check, tier: xs::Tier, pid: &'static str, report: PRep
             if c == channels[0] {
                 sys.storms = vec![(256, false), (65536, false), (65536, true)];
             }
-            // second-step probing: on the first channel in the quick tier (follow-ups over the
-            // expansion domain), on every channel in the thorough tier (first channel: follow-ups
+            // second-step probing: on the first channel with the 2 ms timeout in the quick tier, on
+            // every channel and timeout in the thorough tier (first channel: follow-ups
             // over all 128 values)
-            sys.deep_probes = c == channels[0] || tier.thorough();
+            sys.deep_probes = (c == channels[0] && t_us == 2000) || tier.thorough();
             if tier.thorough() && c == channels[0] {
                 sys.followup_values = (0..128).collect();
             } else if !tier.thorough() {
